@@ -233,6 +233,10 @@ def run(R):
         R.check(al.get(k) == v, "C19.RESTORE", "mock_:" + k, "asynq/mock_.py", "%s is %s" % (k, v), "%s is %s" % (k, al.get(k)))
     R.check(pa.bases and not isinstance(pa.bases[0], tuple) or (pa.bases and pa.bases[0] == ("ext", "unittest.mock._patch")), "C19.RESTORE", pa.qualname + ":base", R.site(pa.module, pa.node),
             "_PatchAsync derives from unittest.mock._patch", "_PatchAsync no longer derives from unittest.mock._patch")
+    # a function/method replacement is installed as asynq(sync_fn=new)(new): all calling conventions of the patched method go through
+    # the decorator/binder machinery, whose agreement rules are C09's
+    from . import c09
+    c09.run(R, "C19.CALLCONV")
     R.require_min("C19.ATTACH", 7)
     R.require_min("C19.DROP-IN", 8)
     R.require_min("C19.RESTORE", 8)
